@@ -34,7 +34,8 @@ LEVEL_NOTE = (
     "(busy frames so far) x 50 ms) + 20 ms; consecutive indications >= 20 ms apart; exactly one L_Data.con equal to the sent frame per completed send_cemi; "
     "a send that never completes (deadlock on the virtual loop) is a violation. The exact busy-counter model (N incremented by a busy frame arriving > 10 ms after the previous one during a pause, extension random() x N x 50 ms fixed when the pause is set, "
     "N decremented every 5 ms after N x 100 ms) started as a shadow oracle; after 0 disagreements in > 10^6 comparisons it is gating: the send instant must equal the model's within 1 us, except in histories "
-    "with an event within 10 ns of a model boundary (not compared). Concurrent senders (2-3 send_cemi callers at once, as management acknowledgements beside queue traffic): spacing, the no-send-during-announced-wait rule and the confirmation count are judged; the upper progress bound and the exact busy-counter model are judged for the sequential sender only."
+    "with an event within 10 ns of a model boundary (not compared). In ~30% of the sequential histories the same Routing object is disconnected and connected again 1-2 times between sends (down 0..300 ms, also inside an announced pause); pause rule, progress bound, "
+    "spacing and confirmations are judged across the restart (the exact model is not compared there). Concurrent senders (2-3 send_cemi callers at once, as management acknowledgements beside queue traffic): spacing, the no-send-during-announced-wait rule and the confirmation count are judged; the upper progress bound and the exact busy-counter model are judged for the sequential sender only."
 )
 SHARDS = {"quick": 1, "thorough": 16}
 TIMEOUT = {"quick": 200, "thorough": 1500}
@@ -74,6 +75,13 @@ def gen_spec(rng, index):
             t = max(t, prev_end + rng.choice((-0.011, -0.001, -1e-7, 0.0, 0.0, 1e-7, 0.001, 0.004, 0.02, 0.049, 0.05, 0.1, 0.104, 0.2)))
         else:
             t += rng.uniform(0, 0.4)
+    if mode == "sequential" and rng.random() < 0.3:
+        # the same Routing object is stopped and started again (1-2 times) between sends; the statement does not reset on a restart
+        for _ in range(rng.choice((1, 1, 2))):
+            pos = rng.randrange(0, len(sends) + 1)
+            sends.insert(pos, {"gap": rng.choice((0.0, 0.0, 0.001, 0.01, 0.1)), "restart": rng.choice((0.0, 0.0, 0.001, 0.005, 0.05, 0.3))})
+            if pos + 1 < len(sends) and rng.random() < 0.6:
+                sends[pos + 1] = {"gap": rng.choice((0.0, 0.0, 0.001, 0.01))}
     spec.update(
         sends=sends,
         busy=busy,
@@ -204,9 +212,13 @@ def run_history(ctx, spec):
     def callback(raw):
         cons.append((loop.time(), bytes(raw), len(loop.wire)))
 
+    def listener():
+        live = [t for t in loop.datagram_transports if t.kind == "multicast_listener" and not t.closed]
+        return live[-1] if live else None
+
     def deliver(raw):
-        tr = loop.datagram_transports[0]
-        if not tr.closed:
+        tr = listener()
+        if tr is not None:
             try:
                 tr.deliver(raw, PEER)
             except Exception as exc:  # noqa: BLE001 - recorded; what it does to sending is judged (a stalled send is a violation)
@@ -214,6 +226,9 @@ def run_history(ctx, spec):
                 ctx.count("delivery_raised_" + type(exc).__name__)
 
     def deliver_busy(wait):
+        if listener() is None:
+            ctx.count("busy_frames_while_interface_down_not_received")
+            return
         busy_log.append((loop.time(), wait, len(loop.wire)))
         deliver(KNXIPFrame.init_from_body(RoutingBusy(wait_time=wait)).to_knx())
         kinds.append(f"B{wait}")
@@ -222,6 +237,14 @@ def run_history(ctx, spec):
         for item in plan:
             if item["gap"]:
                 await asyncio.sleep(item["gap"])
+            if "restart" in item:
+                await routing.disconnect()
+                if item["restart"]:
+                    await asyncio.sleep(item["restart"])
+                await routing.connect()
+                kinds.append("restart")
+                ctx.count("restarts_of_the_same_routing_object")
+                continue
             cemi = make_cemi(rng)
             rec = {"sender": name, "call": loop.time(), "wire_at_call": len(loop.wire), "cons_at_call": len(cons), "returned": None}
             sends.append(rec)
@@ -355,11 +378,12 @@ def run_history(ctx, spec):
         ctx.ev()
         hi = s_t  # upper bound under construction
         bound = max(sends[order[k]]["call"] if sequential and k < len(order) else 0.0, (tx[k - 1][0] + SPACING) if k else 0.0)
-        for n_i, (b_t, wait, b_pos) in enumerate(busy_log, start=1):
+        seen = sum(1 for b in busy_log if b[2] < s_pos)  # the extension is at most (busy frames seen) x 50 ms, whenever it is drawn
+        for b_t, wait, b_pos in busy_log:
             if b_pos >= s_pos:
                 continue  # handed to the protocol after this indication left
             end = b_t + wait / 1000
-            bound = max(bound, end + n_i * 0.05)
+            bound = max(bound, end + seen * 0.05 + 0.001)  # + 1 ms: a pause resumed after a restart may be rounded up to whole ms
             if s_t < end - EPS:
                 same = abs(s_t - b_t) < 1e-9
                 mech = "indication-sent-in-same-instant-after-busy-frame" if same else "indication-sent-during-announced-wait"
@@ -389,8 +413,8 @@ def run_history(ctx, spec):
         for b_t, wait, _ in busy_log:
             sh.busy(b_t, wait, rand_at)
         sh.finish()
-        if spec["mode"] == "io-gap":
-            sh.ambiguous = True
+        if spec["mode"] == "io-gap" or any("restart" in i for i in spec["sends"]):
+            sh.ambiguous = True  # the model does not describe a restarted interface; pause rule, bounds and spacing are judged across the restart
         prev = None
         for k, (s_t, _, _) in enumerate(tx):
             call = sends[order[k]]["call"]
@@ -423,7 +447,7 @@ def run(ctx):
         "and in the slow-down phase) x scripted random extension; io-gap: second busy frame queued in the I/O phase of iteration k+j after the pause end; "
         "distinct = (mode, number of sends, busy waits in arrival order, first send instants in ms)"
     )
-    ctx.require("histories_sequential", "histories_io-gap", "histories_concurrent", "concurrent_spacing_ok", "busy_frames", "routing_indications", "confirmations", "spacing_ok",
+    ctx.require("restarts_of_the_same_routing_object", "histories_sequential", "histories_io-gap", "histories_concurrent", "concurrent_spacing_ok", "busy_frames", "routing_indications", "confirmations", "spacing_ok",
                 "sent_outside_every_announced_wait", "random_extension_draws", "shadow_agreements")
     n = ctx.scale(1500, 400000)
     for i in range(n):
